@@ -63,6 +63,20 @@ class C15(PropBase):
         violation = None
         if GG.snapshot(gr) != before:
             violation = "get_conditional_independencies modified the graph"
+        if violation is None and len(g["nodes"]) <= 5:
+            # the generator behind it, asked for ALL separations: each one must be true, within the limit, and the pairs must be the listed pairs
+            import zlib
+            if zlib.crc32(repr(case).encode()) % 3 == 1:
+                from y0.algorithm.conditional_independencies import d_separations
+                every = list(d_separations(gr, max_conditions=case["mc"], return_all=True))
+                lim = len(g["nodes"]) if case["mc"] is None else case["mc"]
+                for j in every:
+                    l, r, cs = GG.vid(j.left), GG.vid(j.right), [GG.vid(c) for c in j.conditions]
+                    if len(cs) > lim or not OG.d_separated(g, l, r, cs):
+                        violation = f"d_separations(return_all=True) yields ({l},{r}|{cs}), which is not a separation within the limit {lim}"
+                        break
+                if violation is None and {frozenset((GG.vid(j.left), GG.vid(j.right))) for j in every} != {frozenset((l, r)) for l, r, _, _ in out}:
+                    violation = "d_separations(return_all=True) and get_conditional_independencies disagree on which pairs are separable"
         if violation is None:       # which pairs are listed, and with how many conditions, may not depend on what the variables are called
             def renamed():
                 gr2 = GG.to_y0(g)
